@@ -28,15 +28,21 @@ pub async fn main() -> anyhow::Result<()> {
         Some(host) => format!("{}:{}", host, config.port).parse()?,
         None => SocketAddrV4::new(Ipv4Addr::LOCALHOST, config.port),
     };
-    if config.mode.enable_udp() {
+    let udp_task = if config.mode.enable_udp() {
         let socket = UdpSocket::bind(listen_addr).await?;
         info!("Listening UDP on: {}", socket.local_addr()?);
-        tokio::spawn(transfer_udp(socket, current.clone()));
-    }
+        Some(tokio::spawn(transfer_udp(socket, current.clone())))
+    } else {
+        None
+    };
     if config.mode.enable_tcp() {
         let listener = TcpListener::bind(listen_addr).await?;
         info!("Listening TCP on: {}", listener.local_addr()?);
         transfer_tcp(listener, current).await;
+    }
+    // mode "udp": the UDP relay is the only service, keep the process alive for it
+    if let Some(udp_task) = udp_task {
+        udp_task.await?;
     }
     Ok(())
 }
